@@ -315,6 +315,14 @@ func (w *World) Run(sc *Scenario, o RunOpts) *Outcome {
 		defer df.Close()
 		cmd.Stdout = df
 	}
+	if sc.StdoutCharDev {
+		dn, err := os.OpenFile("/dev/null", os.O_WRONLY, 0)
+		if err != nil {
+			harnessPanic("open /dev/null: %v", err)
+		}
+		defer dn.Close()
+		cmd.Stdout = dn
+	}
 	cmd.Stderr = &se
 	env := []string{
 		"PATH=/usr/bin:/bin", "HOME=" + work, "TMPDIR=" + tmp, "TZ=UTC", "LANG=C",
